@@ -209,6 +209,8 @@ def main(argv=None):
         if not agg and not rep.unsupported and not rep.errors:
             checker_errors.append(f"{q}: zero obligations generated")
         for name, recs in agg.items():
+            if any(x in name for x in spec.get("exclude", [])):
+                continue  # an obligation of this function that belongs to another property
             sts = {r["status"] for r in recs}
             status = "refuted" if "refuted" in sts else ("unknown" if "unknown" in sts else "proved")
             for r in recs:
